@@ -204,3 +204,100 @@ func VerifC19MergeAccounts() {
 	vr.Assert("c19.accts.counters-untouched", block.txnCount == blockCount && block.feesCollected.Raw == blockFees)
 	vr.Reach("done")
 }
+
+// ---------------------------------------------------------------------------
+// key-value store (boxes)
+
+type verifC19Kv struct {
+	has [2]bool // this layer wrote the key
+	del [2]bool // ... as a deletion
+	val [2][]byte
+}
+
+func verifC19Key(i int) string {
+	if i == 0 {
+		return "bx:key0"
+	}
+	return "bx:key1"
+}
+
+func verifC19CheckKv(tag string, cow *roundCowState, p *verifC19Parent, layers ...*verifC19Kv) {
+	for i := 0; i < 2; i++ {
+		got, ok, err := cow.kvGet(verifC19Key(i))
+		wantOK := i == 0 && p.kvHas // the ledger stores key0 or nothing
+		want := p.kvVal
+		for _, l := range layers {
+			if l.has[i] {
+				wantOK, want = !l.del[i], l.val[i]
+			}
+		}
+		vr.Assert(tag+".no-error", err == nil)
+		vr.Assert(tag+".existence", ok == wantOK)
+		if ok && wantOK {
+			vr.Assert(tag+".value", string(got) == string(want))
+		}
+	}
+}
+
+func verifC19KvWrite(label string, cow *roundCowState, g *verifC19Kv, i int) {
+	if vr.Bool(label + ".delete") {
+		cow.kvDel(verifC19Key(i))
+		g.has[i], g.del[i], g.val[i] = true, true, nil
+		return
+	}
+	v := vr.BytesN(label+".value", 1)
+	cow.kvPut(verifC19Key(i), v)
+	g.has[i], g.del[i], g.val[i] = true, false, v
+}
+
+//verif:harness prop=C19 reach=done,committed,discarded,overwrote,fresh unwind=12 budget=200 thorough.budget=1500
+func VerifC19MergeKv() {
+	p := &verifC19Parent{verifParent: verifMakeParent()}
+	p.kvKey = verifC19Key(0)
+	p.kvHas = vr.Bool("ledger.haskey0")
+	p.kvVal = vr.BytesN("ledger.key0", 1)
+	var proto config.ConsensusParams
+	block := verifC19Block(p, proto)
+
+	var gb, gc verifC19Kv
+	if vr.Bool("block.prior") { // an earlier group wrote or deleted key0
+		verifC19KvWrite("prior", block, &gb, 0)
+	}
+	child := block.child(2)
+	n := vr.Choice("nwrites", 3)
+	labels := [2]string{"write0", "write1"}
+	for k := 0; k < n; k++ {
+		i := vr.Choice(labels[k]+".key", 2)
+		if gb.has[i] {
+			vr.Reach("overwrote")
+		} else {
+			vr.Reach("fresh")
+		}
+		verifC19KvWrite(labels[k], child, &gc, i)
+	}
+	verifC19CheckKv("c19.kv.child-view", child, p, &gb, &gc)
+	verifC19CheckKv("c19.kv.isolated-before-commit", block, p, &gb)
+
+	if vr.Bool("commit") {
+		vr.Reach("committed")
+		child.commitToParent()
+		for i := 0; i < 2; i++ {
+			if gc.has[i] {
+				gb.has[i], gb.del[i], gb.val[i] = true, gc.del[i], gc.val[i]
+			}
+		}
+	} else {
+		vr.Reach("discarded")
+	}
+	child.recycle()
+	verifC19Clean(child)
+	verifC19CheckKv("c19.kv.after", block, p, &gb)
+	nmods := 0
+	for i := 0; i < 2; i++ {
+		if gb.has[i] {
+			nmods++
+		}
+	}
+	vr.Assert("c19.kv.modified-count", len(block.mods.KvMods) == nmods)
+	vr.Reach("done")
+}
